@@ -119,8 +119,17 @@ def run_bounded(report, q, tier, reason, limit=None):
     return b
 
 
-def run_functions(report, qualnames, tier="quick", bounded_limit=None, monitor=True):
+def load_lock():
+    p = os.path.join(os.path.dirname(os.path.dirname(os.path.abspath(__file__))), "obligations.lock")
+    if os.path.exists(p):
+        import json
+        return json.load(open(p))
+    return {}
+
+
+def run_functions(report, qualnames, tier="quick", bounded_limit=None, monitor=True, use_lock=True):
     import contracts
+    lock = load_lock() if use_lock else {}
     t0 = time.time()
     qualnames = list(dict.fromkeys(qualnames))
     bounded_only = [q for q in qualnames if contracts.ALL[q].get("bounded_only")]
@@ -191,6 +200,38 @@ def run_functions(report, qualnames, tier="quick", bounded_limit=None, monitor=T
                 report.violation(key, {"function": q, "obligation": o["name"], "model": o.get("model"),
                                        "detail": o.get("detail"), "note": "the counter-model did not replay on the witness "
                                        "library; the obligation is reported as failed"},
+                                 None, no_input=True)
+        unknown = [o for o in r["obligations"] if o["status"] == "unknown"]
+        lk = lock.get(q)
+        if unknown and lk and lk.get("all_discharged") and lk.get("source_hash") != r["source_hash"]:
+            # regression: these obligations were discharged for the locked source of this function and are not for the
+            # current one.  A concrete failing input is searched for with the bounded check of the same contract.
+            found = None
+            try:
+                b = native("run_module", {"module": "pvc.bex_contract", "func": "bounded",
+                                          "args": {"qualname": q, "limit": 8000, "seed": SEED}}, timeout=1800)
+                if b["failures"]:
+                    found = b["failures"][0]
+            except CheckerError:
+                pass
+            for o in unknown:
+                o["status"] = "failed"
+            for ob in report.obligations:
+                if ob["name"] in {o["name"] for o in unknown}:
+                    ob["status"] = "failed"
+            names = sorted({o["name"].split("] ", 1)[-1] for o in unknown})
+            key = f"{q}: {names[0]}"
+            if found is not None:
+                call = ", ".join(f"{k}={v}" for k, v in found["args"].items())
+                report.violation(key, {"function": q, "obligations_no_longer_discharged": names, "failing_call": call,
+                                       "why": found.get("why"), "observed": found.get("observed"),
+                                       "note": "discharged for the locked source of this function; input found by the bounded check of the contract"},
+                                 {"kind": "contract_call", "qualname": q, "args": found["args"]}, witness=call)
+            else:
+                report.violation(key, {"function": q, "obligations_no_longer_discharged": names,
+                                       "solver_output": [o.get("backend") for o in unknown][:4],
+                                       "note": "these obligations were discharged for the locked source of this function "
+                                               "(obligations.lock) and the solvers no longer discharge them for the current source"},
                                  None, no_input=True)
         if r["limitation"]:
             # the verifier cannot process the current source of this function: bounded stand-in of the same contract
